@@ -114,6 +114,10 @@ CLAIMS = {
             "Decides the structural necessary conditions of maximal de-duplication and of tree preservation: atoms are looked up by content, pairs by their interned children (left, right); a node is created and pushed exactly once and only when its entry is vacant; the created atom has the source bytes, the created pair has the two key values as children; every source node is mapped once and the root is the mapping of the request. Not that the serialization is byte-identical (a value property).",
             "Trusts rustc's MIR and std's HashMap entry API.",
             "DESIGN.md 4/C24"),
+    "C25": ("in-bounds verifier for every indexing / slicing / division site reachable from run_program (lib/bounds.py: flow-sensitive symbolic values with reaching definitions, dominating and per-path branch facts, staleness analysis for mutable storage, linear prover with infeasible-path detection), typestate rule for the accessors that panic on pairs (match arms, !is_pair(), validator summaries, constructor results, recursive caller check over the resolved call graph), audited inventories of explicit panic sites (local guards checked by dominance) and InternalError constructions, SCC computation for recursion",
+            "Decides for all functions reachable from run_program (both dialects, every operator): each of the ~90 indexing and 5 division sites is proved in bounds from the code's own conditions (about 60 goals), or proved under the allocator's stated storage invariant (about 35, inside impl Allocator only), or relies on one of 17 audited invariants listed with their reason; every call of atom()/atom_len()/number()/atom_eq() is on a node known to be an atom; the 20 explicit panic sites and 15 InternalError constructions are the audited ones and a new one is reported; no recursion. Not decided: arithmetic overflow assertions (debug builds only), dependency crates, allocation failure, and that the audited stack-discipline invariants hold (C04/C31 decide the pairing).",
+            "Sound-but-incomplete verifier: new indexing code that is safe for a reason the prover cannot see must be added to the audited table with its invariant. Trusts rustc's MIR, the purity list for accessor calls, and the audited invariants.",
+            "DESIGN.md 4/C25"),
     "C26": ("normal-form comparison of every binding: the value each #[pyfunction] returns is reconstructed from MIR across `?`, map_err, borrows and closures (lib/inline.py) and compared with 'core function applied to the caller's parameters'; call inventory + &mut-borrow inventory (nothing else touches core state); flag-region rule for the heap limit; constant comparison of exported flags with the core's; Python ast rules for serde.py and Program.run_with_cost, parameterised by the Rust signatures",
             "Decides that run_serialized_chia_program is adapt_response(run_program(alloc, ChiaDialect::new(from_bits_truncate(flags)), node_from_bytes(program), node_from_bytes(args), max_cost)) with alloc = new_limited(500000000) iff LIMIT_HEAP, that each ser_*/deser_* binding is exactly its core function on unchanged arguments with errors rendered by to_string(), that adapt_response passes cost/node/message through unchanged, that LazyNode.atom/pair are the allocator's views in the right arms and order, that exported constants equal the core's flags, and that the Python front end routes formats and keyword limits to the bindings that take them. Not: pyo3's argument extraction, nor the tree conversion of clvm_tree_to_lazy_node (C27).",
             "Trusts rustc's MIR, pyo3's generated wrappers, and the value-preserving wrapper list in rules/c26.py (Deref, as_slice, Rc::new, unbind, ...).",
